@@ -115,7 +115,7 @@ class C12(InputProp):
             ref = (nsid, ref_partial, ref_full)
             for rsk, rs in rem_spellings(rem).items():
                 for cvk, nsv in (case_variants(nsname).items() if nsname else [("asis", "")]):
-                    for nsu in ([nsv, nsv.replace(" ", "_")] if " " in nsv else [nsv]):
+                    for nsu in ([nsv, nsv.replace(" ", "_"), nsv.replace(" ", "  "), nsv.replace(" ", "__"), nsv.replace(" ", "_ ")] if " " in nsv else [nsv]):
                         for sepk, sep in (SEPS.items() if nsname else [("plain", "")]):
                             for leadk, lead in LEADS.items():
                                 for surk, (s1, s2) in SURROUND.items():
